@@ -442,6 +442,15 @@ def call_obligation(ctx, rep, world, pr, p, b, bi, t, info, n_site, r32_sinks):
             ok = want is not None and ln == (want, want)
             rep.check(ok, "unwrap", p, role, "slice of length %s converted to [u8; %s]" % (ln[0], want), "try_into().unwrap(): source length [%s,%s] is not provably %s" % (ln[0], ln[1], want), b.loc(bi))
             return
+        if util.is_call(src) and "TryFrom<" in src[1] and src[1].endswith("::try_from") and " for " in src[1] and len(src[2]) == 1:
+            # uN::try_from(x): succeeds iff x fits uN
+            tgt = src[1].split(" for ")[-1].split(">")[0]
+            tr_ = TYPE_RANGE.get(tgt)
+            if tr_ is not None:
+                rx = pr.rng(src[2][0], bi)
+                ok = rx[0] >= tr_[0] and rx[1] <= tr_[1]
+                rep.check(ok, "unwrap", p, role, "%s::try_from of a value in [%s,%s] always fits" % (tgt, rx[0], rx[1]), "%s::try_from(..).unwrap(): the value, in [%s,%s], does not provably fit" % (tgt, rx[0], rx[1]), b.loc(bi))
+                return
         if util.is_call(src) and src[1] in ("std::str::from_utf8", "core::str::from_utf8") and p == "<normalized_string::NormalizedString as std::convert::AsRef<str>>::as_ref":
             ok, why = ascii_premise(ctx)
             rep.check(ok, "unwrap", p, role, "justified: the stored bytes are ASCII (" + why + ")", "from_utf8(..).unwrap() on bytes that are not provably ASCII: " + why, b.loc(bi))
